@@ -204,6 +204,12 @@ class TranslateNode(Node, TranslatableTag):
         message_context: str | None,
     ) -> str:
         """Get translated text from the given translations object."""
+        if not self.singular_block.block.nodes:
+            # There is no message id to look up, and none is extracted.
+            if self.plural_block and count is not None and count != 1:
+                return self.plural_block.text
+            return self.singular_block.text
+
         if self.plural_block and count is not None:
             if message_context is not None:
                 return translations.npgettext(
